@@ -78,9 +78,10 @@ def IdsSet (s : H) : Prop :=
 def viabKindS (t : String) : Kind := if t == "or" then .anyK else if t == "and" then .allK else .constK
 def necKindS (t : String) : Kind := if t == "or" then .allK else if t == "and" then .anyK else .constK
 
-/-- `_has_ttc_distribution` as a function of the `ttc` value -/
+/-- `_has_ttc_distribution` as a function of the `ttc` value (since 68ab4f5: any non-empty dict other than the
+Enabled / Disabled pseudo-distributions, with or without a `name` key) -/
 def ttcGate (d : Option PyDictS) : Bool :=
-  dictTruthy d && dictHas d "name" && !(["Enabled", "Disabled"].contains (dictGetS d "name"))
+  dictTruthy d && !(dictHas d "name" && ["Enabled", "Disabled"].contains (dictGetS d "name"))
 
 def viabGH (s : H) : G where
   kind i := viabKindS (s.n i).type
